@@ -38,14 +38,14 @@ type vfPktCfg struct {
 	ReqErr    float64
 	FillErr   float64
 	WriteErr  float64
-	WriteUS   int           // time a write takes (the send phase lasts N*WriteUS)
-	ErrLogUS  int           // time Logger.Error takes (a slow / blocked stderr)
+	WriteUS   int // time a write takes (the send phase lasts N*WriteUS)
+	ErrLogUS  int // time Logger.Error takes (a slow / blocked stderr)
 	ExitDelay time.Duration
 	Replies   []float64 // reply k is delivered to the reader at lastProbe + Replies[k]*ExitDelay (fractions; > 1: too late)
 	CancelAt  int       // Ctrl-C at the k-th seam event (0: never)
 	CancelErr int       // Ctrl-C when the j-th error reaches the log (0: never): by then every buffer behind a stalled log is full
 	Procs     int
-	Real      bool // frames are built by one real icmp filler shared by all builders (as the commands do), not by the harness
+	Real      bool          // frames are built by one real icmp filler shared by all builders (as the commands do), not by the harness
 	BadEvery  time.Duration // frames whose processing fails keep arriving from the last probe on, one every BadEvery, for BadFor
 	BadFor    time.Duration // (a stream of errors during - and, if the scan does not exit, beyond - the exit delay)
 }
